@@ -210,7 +210,13 @@ pub extern "sysv64" fn memory_read_byte(areas: *const MemoryAreas, addr: u16) ->
   }
   if addr < 0xc000 { // Cart RAM
     let offset = addr as usize & 0x1fff;
-    return memory_areas.cart_ram[0x2000 * memory_areas.cart_state.get_ram_bank() + offset];
+    let index = 0x2000 * memory_areas.cart_state.get_ram_bank() + offset;
+    // cartridges without RAM (or with less than a full bank) leave the rest
+    // of the window unconnected
+    return match memory_areas.cart_ram.get(index) {
+      Some(value) => *value,
+      None => 0xff,
+    };
   }
   if addr < 0xd000 { // Work RAM Bank 0
     let offset = addr as usize & 0xfff;
@@ -260,7 +266,10 @@ pub extern "sysv64" fn memory_write_byte(areas: *mut MemoryAreas, addr: u16, val
   }
   if addr < 0xc000 { // Cart RAM
     let offset = addr as usize & 0x1fff;
-    memory_areas.cart_ram[0x2000 * memory_areas.cart_state.get_ram_bank() + offset] = value;
+    let index = 0x2000 * memory_areas.cart_state.get_ram_bank() + offset;
+    if let Some(cell) = memory_areas.cart_ram.get_mut(index) {
+      *cell = value;
+    }
     return;
   }
   if addr < 0xd000 { // Work RAM Bank 0
